@@ -28,9 +28,9 @@ const (
 )
 
 func TestMain(m *testing.M) {
-	vlib.Rule("C11: histories of 5-40 steps over 2-5 modelled volume servers (1-2 data centers / racks), 6 volume ids with a fixed replication in {000,001,010} and collection, replicationAsMin in {false,true}, size limit 1000. " +
-		"Steps: local changes on a server (add / remove a volume, toggle read-only, change size across the limit), full heartbeat of the server's true volume list, delivery of a queued incremental new/deleted message (queues per type, so the two types overtake each other and full heartbeats), replay of an earlier incremental message, stream end, reconnect (also before the master has seen the old stream end), refresh (one round of the full-volume collector). " +
-		"Every heartbeat goes through the real MasterServer.SendHeartbeat handler over a harness stream; the oracle runs after every step. Plus a bounded-exhaustive enumeration of all applicable op sequences (length 3 quick / 5 thorough) over 2 servers and one 001 volume from two start states. " +
+	vlib.Rule("C11: histories of 5-40 steps over 2-5 modelled volume servers (1-2 data centers / racks), 6 volume ids with a fixed replication in {000,001,010}, collection and TTL in {none,none,3m,1h} (so TTL and plain layouts of one replication coexist in a collection and are emptied and deleted), replicationAsMin in {false,true}, size limit 1000. " +
+		"Steps: local changes on a server (add / remove a volume, toggle read-only, move to / from a remote storage tier alone or together with the read-only flag, change size across the limit), full heartbeat of the server's true volume list, delivery of a queued incremental new/deleted message (queues per type, so the two types overtake each other and full heartbeats), replay of an earlier incremental message, stream end, reconnect (also before the master has seen the old stream end), refresh (one round of the full-volume collector). " +
+		"Every heartbeat goes through the real MasterServer.SendHeartbeat handler over a harness stream; the oracle runs after every step. Plus a bounded-exhaustive enumeration of all applicable op sequences (length 3 quick / 5 thorough) over 2 servers and one 001 volume, over 1 server and two 000 volumes that differ only in TTL, and over 1 server and one volume with read-only / remote-tier changes, each from two start states. " +
 		"Non-trivial = the history contains a read-only flip, a stream end, or a stale/duplicate incremental message. Distinct = distinct written-out history.")
 	vlib.Assume("'Registered' is what the heartbeats so far have told the master: a full heartbeat replaces the server's list, an incremental new message adds the volume as writable with size 0 (the short message carries neither), an incremental deleted message removes it, a closed stream removes the server unless a newer stream of the same server is open.")
 	vlib.Assume("The raft server is a stub that is always leader (Topology.Leader() answers at once); the refresh step is Topology.VerifRefreshOnce, which runs CollectDeadNodeAndFullVolumes and the chanFullVolumes/chanCrowdedVolumes consumer of StartRefreshWritableVolumes once, synchronously.")
@@ -46,6 +46,8 @@ func TestMain(m *testing.M) {
 type vinfo struct {
 	size uint64
 	ro   bool
+	// remote: the volume's data lives on a remote storage tier (RemoteStorageName/Key set)
+	remote bool
 	// regOver (only in server.reg): the volume was at or above the size limit
 	// when this server registered it, which is what the master remembers
 	regOver bool
@@ -54,6 +56,7 @@ type vinfo struct {
 type vcfg struct {
 	rp   *super_block.ReplicaPlacement
 	coll string
+	ttl  *needle.TTL
 }
 
 type delta struct {
@@ -94,7 +97,7 @@ type world struct {
 	prevW   map[string]map[uint32]bool
 	fail    func(format string, args ...interface{})
 
-	sawRO, sawEnd, sawStale, sawOverlap, sawRefresh, sawGrow bool
+	sawRO, sawEnd, sawStale, sawOverlap, sawRefresh, sawGrow, sawRemoteRO bool
 	offeredChecks, eligibleNotOffered, picks                    int
 }
 
@@ -107,13 +110,21 @@ func (w *world) addServer(dc, rack string) {
 	w.servers = append(w.servers, &server{ip: fmt.Sprintf("10.0.0.%d", i+1), port: 8080, dc: dc, rack: rack, vols: map[uint32]*vinfo{}})
 }
 
-func (w *world) addVid(vid uint32, rp string, coll string) {
+func (w *world) addVid(vid uint32, rp string, coll string, ttls ...string) {
+	ttl := needle.EMPTY_TTL
+	if len(ttls) > 0 && ttls[0] != "" {
+		x, terr := needle.ReadTTL(ttls[0])
+		if terr != nil {
+			panic(terr)
+		}
+		ttl = x
+	}
 	p, err := super_block.NewReplicaPlacementFromString(rp)
 	if err != nil {
 		panic(err)
 	}
 	w.vids = append(w.vids, vid)
-	w.cfg[vid] = vcfg{rp: p, coll: coll}
+	w.cfg[vid] = vcfg{rp: p, coll: coll, ttl: ttl}
 }
 
 func (w *world) close() {
@@ -136,8 +147,12 @@ func (w *world) fullHeartbeat(s *server) *master_pb.Heartbeat {
 	for _, id := range ids {
 		v := s.vols[uint32(id)]
 		c := w.cfg[uint32(id)]
-		hb.Volumes = append(hb.Volumes, &master_pb.VolumeInformationMessage{Id: uint32(id), Size: v.size, Collection: c.coll, ReadOnly: v.ro,
-			ReplicaPlacement: uint32(c.rp.Byte()), Version: uint32(needle.CurrentVersion), FileCount: 3})
+		m := &master_pb.VolumeInformationMessage{Id: uint32(id), Size: v.size, Collection: c.coll, ReadOnly: v.ro,
+			ReplicaPlacement: uint32(c.rp.Byte()), Version: uint32(needle.CurrentVersion), FileCount: 3, Ttl: c.ttl.ToUint32()}
+		if v.remote {
+			m.RemoteStorageName, m.RemoteStorageKey = "s3.default", fmt.Sprintf("%d.dat", id)
+		}
+		hb.Volumes = append(hb.Volumes, m)
 	}
 	hb.HasNoVolumes = len(hb.Volumes) == 0
 	return hb
@@ -145,7 +160,7 @@ func (w *world) fullHeartbeat(s *server) *master_pb.Heartbeat {
 
 func (w *world) deltaHeartbeat(d delta) *master_pb.Heartbeat {
 	c := w.cfg[d.vid]
-	msg := &master_pb.VolumeShortInformationMessage{Id: d.vid, Collection: c.coll, ReplicaPlacement: uint32(c.rp.Byte()), Version: uint32(needle.CurrentVersion)}
+	msg := &master_pb.VolumeShortInformationMessage{Id: d.vid, Collection: c.coll, ReplicaPlacement: uint32(c.rp.Byte()), Version: uint32(needle.CurrentVersion), Ttl: c.ttl.ToUint32()}
 	if d.deleted {
 		return &master_pb.Heartbeat{DeletedVolumes: []*master_pb.VolumeShortInformationMessage{msg}}
 	}
@@ -156,7 +171,7 @@ func (w *world) deltaHeartbeat(d delta) *master_pb.Heartbeat {
 func (s *server) snapshot() map[uint32]vinfo {
 	r := map[uint32]vinfo{}
 	for vid, v := range s.vols {
-		e := vinfo{size: v.size, ro: v.ro, regOver: v.size >= sizeLimit}
+		e := vinfo{size: v.size, ro: v.ro, remote: v.remote, regOver: v.size >= sizeLimit}
 		if old, ok := s.reg[vid]; ok {
 			e.regOver = old.regOver
 		}
@@ -177,6 +192,9 @@ func (s *server) listing(m map[uint32]vinfo) string {
 		x := fmt.Sprintf("%d:%d", id, v.size)
 		if v.ro {
 			x += "ro"
+		}
+		if v.remote {
+			x += "@remote"
 		}
 		b = append(b, x)
 	}
@@ -246,6 +264,21 @@ func (w *world) apply(o op) string {
 		v.ro = !v.ro
 		w.sawRO = true
 		return fmt.Sprintf("%s.ro(v%d)=%v", name, o.vid, v.ro)
+	case "remote", "roremote":
+		// the volume moves to / comes back from a remote storage tier; "roremote"
+		// flips the read-only flag in the same breath (tier upload of a volume
+		// that is marked read-only for it, or download + mark writable)
+		v, ok := s.vols[o.vid]
+		if !ok {
+			return ""
+		}
+		v.remote = !v.remote
+		if o.kind == "roremote" {
+			v.ro = !v.ro
+			w.sawRO = true
+			return fmt.Sprintf("%s.remote+ro(v%d)=%v,%v", name, o.vid, v.remote, v.ro)
+		}
+		return fmt.Sprintf("%s.remote(v%d)=%v", name, o.vid, v.remote)
 	case "size":
 		v, ok := s.vols[o.vid]
 		if !ok || v.size == o.size {
@@ -259,7 +292,13 @@ func (w *world) apply(o op) string {
 			return ""
 		}
 		s.streams[len(s.streams)-1].deliver(w.fullHeartbeat(s))
+		old := s.reg
 		s.reg = s.snapshot()
+		for vid, n := range s.reg {
+			if o, ok := old[vid]; ok && o.ro != n.ro && o.remote != n.remote {
+				w.sawRemoteRO = true
+			}
+		}
 		return fmt.Sprintf("%s.full%s", name, s.listing(s.reg))
 	case "dnew":
 		if len(s.streams) == 0 || len(s.newQ) == 0 {
@@ -339,7 +378,7 @@ func (w *world) apply(o op) string {
 
 // ---------------------------------------------------------------- the oracle
 
-func layoutKey(coll, rp string) string { return coll + "|" + rp }
+func layoutKey(coll, rp, ttl string) string { return coll + "|" + rp + "|" + ttl }
 
 // replicas returns the connected servers that have vid registered.
 func (w *world) replicas(vid uint32) (r []*server) {
@@ -382,7 +421,7 @@ func (w *world) dump() string {
 	}
 	b.WriteString("\n  volumes:")
 	for _, vid := range w.vids {
-		fmt.Fprintf(&b, " v%d=%s/%q", vid, w.cfg[vid].rp, w.cfg[vid].coll)
+		fmt.Fprintf(&b, " v%d=%s/%q/ttl%q", vid, w.cfg[vid].rp, w.cfg[vid].coll, w.cfg[vid].ttl.String())
 	}
 	fmt.Fprintf(&b, " replicationAsMin=%v sizeLimit=%d\n", w.asMin, sizeLimit)
 	return b.String()
@@ -423,7 +462,7 @@ func (w *world) check(afterRefresh bool) {
 	layouts, _ := topo.ToMap().(map[string]interface{})["Layouts"].([]interface{})
 	for _, l := range layouts {
 		lm := l.(map[string]interface{})
-		key := layoutKey(lm["collection"].(string), lm["replication"].(string))
+		key := layoutKey(lm["collection"].(string), lm["replication"].(string), lm["ttl"].(string))
 		if curW[key] == nil {
 			curW[key] = map[uint32]bool{}
 		}
@@ -437,7 +476,7 @@ func (w *world) check(afterRefresh bool) {
 	for key, set := range curW {
 		for vid := range set {
 			c, known := w.cfg[vid]
-			if !known || layoutKey(c.coll, c.rp.String()) != key {
+			if !known || layoutKey(c.coll, c.rp.String(), c.ttl.String()) != key {
 				w.fail("volume %d is offered in layout %s, which is not its collection/replication\n%s", vid, key, w.dump())
 			}
 			w.offeredChecks++
@@ -462,13 +501,13 @@ func (w *world) check(afterRefresh bool) {
 	seen := map[string]bool{}
 	for _, vid := range w.vids {
 		c := w.cfg[vid]
-		key := layoutKey(c.coll, c.rp.String())
+		key := layoutKey(c.coll, c.rp.String(), c.ttl.String())
 		if seen[key] {
 			continue
 		}
 		seen[key] = true
 		for i := 0; i < 6; i++ {
-			opt := &topology.VolumeGrowOption{Collection: c.coll, ReplicaPlacement: c.rp, Ttl: needle.EMPTY_TTL, DiskType: types.HardDriveType}
+			opt := &topology.VolumeGrowOption{Collection: c.coll, ReplicaPlacement: c.rp, Ttl: c.ttl, DiskType: types.HardDriveType}
 			if i >= 4 {
 				opt.DataCenter = w.servers[i%len(w.servers)].dc
 			}
@@ -483,7 +522,7 @@ func (w *world) check(afterRefresh bool) {
 			}
 			pv := uint32(f.VolumeId)
 			pc, known := w.cfg[pv]
-			if !known || layoutKey(pc.coll, pc.rp.String()) != key {
+			if !known || layoutKey(pc.coll, pc.rp.String(), pc.ttl.String()) != key {
 				w.fail("PickForWrite(%s) handed out volume %d, which is not of that collection/replication\n%s", key, pv, w.dump())
 			}
 			if ok, why := w.eligible(pv, afterRefresh); !ok {
@@ -529,7 +568,7 @@ func (w *world) check(afterRefresh bool) {
 	// measured only (the statement is "only if"): eligible but not offered
 	for _, vid := range w.vids {
 		c := w.cfg[vid]
-		if ok, _ := w.eligible(vid, true); ok && !curW[layoutKey(c.coll, c.rp.String())][vid] {
+		if ok, _ := w.eligible(vid, true); ok && !curW[layoutKey(c.coll, c.rp.String(), c.ttl.String())][vid] {
 			w.eligibleNotOffered++
 		}
 	}
@@ -574,6 +613,19 @@ func (w *world) record(prefix string, classes ...string) {
 	if w.sawGrow {
 		classes = append(classes, "hist-size-change")
 	}
+	if w.sawRemoteRO {
+		classes = append(classes, "hist-readonly-and-remote-tier-change-in-one-report")
+	}
+	for _, a := range w.vids {
+		for _, b := range w.vids {
+			ca, cb := w.cfg[a], w.cfg[b]
+			if a < b && ca.coll == cb.coll && ca.rp.String() == cb.rp.String() && (ca.ttl.String() == "") != (cb.ttl.String() == "") {
+				classes = append(classes, "hist-ttl-and-plain-layout-of-one-replication")
+				goto done
+			}
+		}
+	}
+done:
 	if w.offeredChecks > 0 {
 		classes = append(classes, "hist-some-volume-offered")
 	}
@@ -615,6 +667,8 @@ func (w *world) drawOp(t *rapid.T) op {
 	if len(held) > 0 {
 		add("rm", 1)
 		add("ro", 2)
+		add("remote", 1)
+		add("roremote", 1)
 		add("size", 2)
 	}
 	if len(s.streams) == 0 {
@@ -645,7 +699,7 @@ func (w *world) drawOp(t *rapid.T) op {
 		o.vid = rapid.SampledFrom(free).Draw(t, "vid")
 		o.size = rapid.SampledFrom(sizes).Draw(t, "size")
 		o.ro = rapid.IntRange(0, 4).Draw(t, "ro") == 0
-	case "rm", "ro":
+	case "rm", "ro", "remote", "roremote":
 		o.vid = rapid.SampledFrom(held).Draw(t, "vid")
 	case "size":
 		o.vid = rapid.SampledFrom(held).Draw(t, "vid")
@@ -675,15 +729,16 @@ func TestPropHeartbeatHistories(t *testing.T) {
 		for vid := uint32(1); vid <= 6; vid++ {
 			rp := rapid.SampledFrom(rps).Draw(t, "replication")
 			coll := rapid.SampledFrom([]string{"", "", "c1"}).Draw(t, "collection")
-			w.addVid(vid, rp, coll)
-			setup += fmt.Sprintf(" v%d=%s/%q", vid, rp, coll)
+			ttl := rapid.SampledFrom([]string{"", "", "3m", "1h"}).Draw(t, "ttl")
+			w.addVid(vid, rp, coll, ttl)
+			setup += fmt.Sprintf(" v%d=%s/%q/ttl%q", vid, rp, coll, ttl)
 		}
 		// a started cluster is the common start state; an empty one the other
 		if rapid.IntRange(0, 3).Draw(t, "startConnected") > 0 {
 			for i := range w.servers {
 				for _, vid := range w.vids {
 					if rapid.IntRange(0, 2).Draw(t, "holds") == 0 {
-						w.servers[i].vols[vid] = &vinfo{size: rapid.SampledFrom(sizes).Draw(t, "size"), ro: rapid.IntRange(0, 4).Draw(t, "ro") == 0}
+						w.servers[i].vols[vid] = &vinfo{size: rapid.SampledFrom(sizes).Draw(t, "size"), ro: rapid.IntRange(0, 4).Draw(t, "ro") == 0, remote: rapid.IntRange(0, 5).Draw(t, "remote") == 0}
 					}
 				}
 				w.step(op{kind: "conn", s: i})
@@ -699,47 +754,18 @@ func TestPropHeartbeatHistories(t *testing.T) {
 
 // ---------------------------------------------------------------- bounded-exhaustive
 
-// TestPropSmallExhaustive enumerates every sequence of applicable steps of the
-// given length over two servers in one rack and one volume with replication 001,
-// for both replicationAsMin settings, from an empty cluster and from a cluster
-// where both replicas are registered and the volume is offered.
-func TestPropSmallExhaustive(t *testing.T) {
-	depth := vlib.Pick(3, 5)
-	var alphabet []op
-	for s := 0; s < 2; s++ {
-		alphabet = append(alphabet,
-			op{kind: "add", s: s, vid: 1, size: 500},
-			op{kind: "rm", s: s, vid: 1},
-			op{kind: "ro", s: s, vid: 1},
-			op{kind: "size", s: s, vid: 1, size: 1200},
-			op{kind: "full", s: s},
-			op{kind: "dnew", s: s},
-			op{kind: "ddel", s: s},
-			op{kind: "end", s: s},
-			op{kind: "conn", s: s},
-		)
-		if !vlib.Known(kOverlap) {
-			alphabet = append(alphabet, op{kind: "overlap", s: s})
-		}
-	}
-	alphabet = append(alphabet, op{kind: "refresh"})
-
+// enumerate runs every sequence of applicable steps of the given length over
+// the alphabet, for the given replicationAsMin settings, from an empty cluster
+// and from a started one (setup(w, started) builds the servers and volumes).
+func enumerate(t *testing.T, name string, depth int, alphabet []op, asMins []bool, setup func(w *world, started bool)) {
 	seq := make([]int, depth)
 	index := 0
 	var rec func(d int)
 	run := func() {
-		for _, asMin := range []bool{false, true} {
+		for _, asMin := range asMins {
 			for _, started := range []bool{false, true} {
 				w := newWorld(asMin, func(f string, a ...interface{}) { t.Fatalf(f, a...) })
-				w.addServer("dc1", "r1")
-				w.addServer("dc1", "r1")
-				w.addVid(1, "001", "")
-				if started {
-					for i := range w.servers {
-						w.servers[i].vols[1] = &vinfo{size: 500}
-						w.step(op{kind: "conn", s: i})
-					}
-				}
+				setup(w, started)
 				ok := true
 				for _, k := range seq {
 					if !w.step(alphabet[k]) {
@@ -748,7 +774,7 @@ func TestPropSmallExhaustive(t *testing.T) {
 					}
 				}
 				if ok {
-					w.record(fmt.Sprintf("exhaustive asMin=%v started=%v :: ", asMin, started), "exhaustive")
+					w.record(fmt.Sprintf("%s asMin=%v started=%v :: ", name, asMin, started), name)
 				}
 				w.close()
 			}
@@ -768,7 +794,84 @@ func TestPropSmallExhaustive(t *testing.T) {
 		}
 	}
 	rec(0)
-	vlib.Exhaustive(fmt.Sprintf("2-servers-1-volume-001-depth-%d", depth), true)
+	vlib.Exhaustive(fmt.Sprintf("%s-depth-%d", name, depth), true)
+}
+
+// TestPropSmallExhaustive: two servers in one rack and one volume with
+// replication 001, both replicationAsMin settings; the started cluster has both
+// replicas registered and the volume offered.
+func TestPropSmallExhaustive(t *testing.T) {
+	var alphabet []op
+	for s := 0; s < 2; s++ {
+		alphabet = append(alphabet,
+			op{kind: "add", s: s, vid: 1, size: 500},
+			op{kind: "rm", s: s, vid: 1},
+			op{kind: "ro", s: s, vid: 1},
+			op{kind: "size", s: s, vid: 1, size: 1200},
+			op{kind: "full", s: s},
+			op{kind: "dnew", s: s},
+			op{kind: "ddel", s: s},
+			op{kind: "end", s: s},
+			op{kind: "conn", s: s},
+		)
+		if !vlib.Known(kOverlap) {
+			alphabet = append(alphabet, op{kind: "overlap", s: s})
+		}
+	}
+	alphabet = append(alphabet, op{kind: "refresh"})
+	enumerate(t, "exhaustive-2-servers-1-volume-001", vlib.Pick(3, 5), alphabet, []bool{false, true}, func(w *world, started bool) {
+		w.addServer("dc1", "r1")
+		w.addServer("dc1", "r1")
+		w.addVid(1, "001", "")
+		if started {
+			for i := range w.servers {
+				w.servers[i].vols[1] = &vinfo{size: 500}
+				w.step(op{kind: "conn", s: i})
+			}
+		}
+	})
+}
+
+// TestPropSmallExhaustiveTTL: one server, two 000 volumes of one collection
+// that differ only in their TTL (so they live in two layouts whose keys share a
+// prefix); layouts become empty and are deleted along the way.
+func TestPropSmallExhaustiveTTL(t *testing.T) {
+	var alphabet []op
+	for vid := uint32(1); vid <= 2; vid++ {
+		alphabet = append(alphabet,
+			op{kind: "add", vid: vid, size: 500},
+			op{kind: "rm", vid: vid},
+			op{kind: "ro", vid: vid},
+		)
+	}
+	alphabet = append(alphabet, op{kind: "full"}, op{kind: "dnew"}, op{kind: "ddel"}, op{kind: "end"}, op{kind: "conn"}, op{kind: "refresh"})
+	enumerate(t, "exhaustive-1-server-2-volumes-ttl", vlib.Pick(3, 5), alphabet, []bool{false}, func(w *world, started bool) {
+		w.addServer("dc1", "r1")
+		w.addVid(1, "000", "")
+		w.addVid(2, "000", "", "3m")
+		if started {
+			w.servers[0].vols[1] = &vinfo{size: 500}
+			w.servers[0].vols[2] = &vinfo{size: 500}
+			w.step(op{kind: "conn"})
+		}
+	})
+}
+
+// TestPropSmallExhaustiveRemote: one server, one 000 volume whose read-only
+// flag and remote-tier flag change separately and together between reports.
+func TestPropSmallExhaustiveRemote(t *testing.T) {
+	alphabet := []op{
+		{kind: "add", vid: 1, size: 500}, {kind: "rm", vid: 1}, {kind: "ro", vid: 1}, {kind: "remote", vid: 1}, {kind: "roremote", vid: 1},
+		{kind: "full"}, {kind: "dnew"}, {kind: "ddel"}, {kind: "end"}, {kind: "conn"}, {kind: "refresh"},
+	}
+	enumerate(t, "exhaustive-1-server-1-volume-remote-tier", vlib.Pick(3, 5), alphabet, []bool{false}, func(w *world, started bool) {
+		w.addServer("dc1", "r1")
+		w.addVid(1, "000", "")
+		if started {
+			w.servers[0].vols[1] = &vinfo{size: 500}
+			w.step(op{kind: "conn"})
+		}
+	})
 }
 
 // ---------------------------------------------------------------- finding probes
